@@ -91,6 +91,13 @@ def qcall(f, *a, **k):
         return f(*a, **k)
 
 
+
+def verbosity(case):
+    """0 (what scripts pass) for two cases in three, None - the tools' default, which prints progress - for the third:
+    a function of the case, so that results are compared across verbosity levels without another draw."""
+    import zlib
+    return None if zlib.crc32(json.dumps(case, sort_keys=True, default=str).encode()) % 3 == 0 else 0
+
 def case_hash(case):
     return hashlib.sha1(json.dumps(case, sort_keys=True, default=str).encode()).hexdigest()[:16]
 
